@@ -675,6 +675,46 @@ pub fn record_tree(opts: &Opts) -> i32 {
     let p = TreeProfile { unsupported: true, exotic: true, hostile_strings: true, no_direct: false, kind: String::new() };
     let out = std::io::stdout();
     let mut out = out.lock();
+    {
+        // BIG left-deep chains (hundreds to thousands of members), sent as a description and rebuilt by TLC
+        use lipe_find_parser::ast::{Action, Expression as E, FormatElement, FormatField, Operator, Test};
+        use std::rc::Rc;
+        let mut sizes = ladder(256, opts.num("big", 5000) as usize);
+        if opts.get("few").is_some() { sizes.retain(|d| [300, 513, 1025, 2049, 4097, 5000].contains(d) || numdict_new().contains(d)); }
+        let fill = E::Test(Test::Name("x".into()));
+        let specials: Vec<Option<E>> = vec![None, Some(E::Action(Action::Print)), Some(E::Action(Action::PrintNull)), Some(E::Action(Action::FilePrint("o".into()))),
+            Some(E::Action(Action::PrintFormatted(vec![FormatElement::Field(FormatField::Name)]))), Some(E::Action(Action::Quit))];
+        for &n in &sizes {
+            for (si, sp) in specials.iter().enumerate() {
+                for (pi, pos) in [1usize, n / 2, n].into_iter().enumerate() {
+                    if sp.is_none() && pi > 0 { continue; }
+                    let opname = ["or", "and", "list", "mix"][(si + pi) % 4];
+                    let member = |i: usize| if i == pos { sp.clone().unwrap_or_else(|| fill.clone()) } else { fill.clone() };
+                    let mut t = member(1);
+                    for i in 2..=n {
+                        let o = if opname == "mix" { ["or", "and", "list"][i % 3] } else { opname };
+                        t = E::Operator(Rc::new(match o { "or" => Operator::Or(t, member(i)), "and" => Operator::And(t, member(i)), _ => Operator::List(t, member(i)) }));
+                    }
+                    let desc = json!({"n": n, "op": opname, "fill": expr_to_json(&fill), "pos": pos, "leaf": expr_to_json(&member(pos))});
+                    // what compile() chooses (only for sizes the recursive compiler can take on this stack)
+                    let mode = if n <= 1100 {
+                        match guarded(&json!({"big": n}), || lipe_find_parser::compile(&t, &lipe_find_parser::RunOptions::default()).map(|c| c.io_map().is_some())) {
+                            Ok(Ok(true)) => "framed", Ok(Ok(false)) => "plain", Ok(Err(_)) => "err", Err(_) => "panic" }
+                    } else { "none" };
+                    match guarded(&json!({"big": n}), || (t.action(), t.complex_frames())) {
+                        Ok((a, f)) => emit(&mut out, &json!({"big": desc, "st": "ok", "action": a, "framed": f, "mode": mode})),
+                        Err(m) => emit(&mut out, &json!({"big": desc, "st": "panic", "msg": cps(&m), "action": false, "framed": false, "mode": mode})),
+                    }
+                    // dropping a chain of thousands of Rc nodes recursively needs stack too: unlink it iteratively
+                    let mut cur = t;
+                    loop {
+                        let next = match cur { E::Operator(rc) => match Rc::try_unwrap(rc) { Ok(Operator::Or(l, _)) | Ok(Operator::And(l, _)) | Ok(Operator::List(l, _)) => Some(l), _ => None }, _ => None };
+                        match next { Some(l) => cur = l, None => break }
+                    }
+                }
+            }
+        }
+    }
     for k in 0..count {
         let sz = 1 + rng.below(size);
         if k % 17 == 5 {
